@@ -191,7 +191,10 @@ def build(spec, lazy=False):
                 # so such a dataset is only asked selection-free constraints)
                 s.data = IterData([typed[0]] + typed, s)[1:] if lazy == "ranged" else IterData(typed, s)
             else:
-                s.data = np.array([tuple(r) for r in v["rows"]], dtype=[(n, np_dtype(t)) for n, t in v["cols"]]).view(np.recarray)
+                # every third table holds its String columns as bytes (dtype S), as the SequenceType docstring does
+                as_bytes = zlib.crc32(repr((v["name"], v["cols"], v["rows"][:2])).encode()) % 3 == 0
+                s.data = np.array([tuple(r) for r in v["rows"]],
+                                  dtype=[(n, "S8" if (t == "U" and as_bytes) else np_dtype(t)) for n, t in v["cols"]]).view(np.recarray)
             ds[v["name"]] = s
     return ds
 
